@@ -87,6 +87,8 @@ def document(kind):
                               obj({"S": obj({"sm": {"type": "object", "additionalProperties": INT}, "sc": dict(CONV_SCHEMA)}, ["sm", "sc"])}, ["S"])]},
         # named types that are NOT definitions: inline titled subschemas (patch targets of the patch_inline feature)
         "IndInline": obj({"mode": {"title": "InlineMode", "type": "string", "enum": ["x", "y"]},
+                          # the same titled in-line schema a second time (converted twice, one type)
+                          "mode_again": {"title": "InlineMode", "type": "string", "enum": ["x", "y"]},
                           "tags": {"type": "array", "items": {"title": "InlineLabel", "type": "string", "maxLength": 5}},
                           "deep": {"title": "InlineObj", "type": "object", "properties": {"k": INT}}}),
     }
